@@ -1,7 +1,8 @@
 (* C06/Harness.v — comparison functions used by the generated correspondence files
    (work/C06/Cases_k.v): model output vs. what was recorded from the Go implementation.
    Imports only the model (no proofs), so the correspondence still runs when a proof breaks. *)
-From Verif Require Import Common.Base C06.Model.
+From Verif Require Import Common.Base.
+From Verif Require Export C06.Model.   (* the generated case files name Pipe, NExp, NConn *)
 
 (* wire label (tag, (i, (k, v))): tag 0 = the fan-out's next consumer call; 1 = consumer i appends
    marker v; 2 = consumer i sets entry k to v; 3 = consumer i removes the entries with marker v *)
@@ -42,6 +43,8 @@ Definition wev_eqb (a b : wev) : bool :=
          (the model is the same for the four files; the tag only labels the case).
    CPipe sig procs exps | observed: MutatesData advertised by the pipeline's capabilitiesNode in a
          graph built by service/internal/graph.Build.
+   CRouter sig pipe_caps sel | observed: MutatesData of connector router.Consumer(sel...), of the router
+         itself (fan-out over all pipelines), and the pipelines invoked, in order, by the selected consumer.
    CTree sig roots | observed: MutatesData of the consumer handed to the receiver that feeds the root
          pipelines (fanoutconsumer.NewX over their capabilitiesNodes), and MutatesData advertised by each
          pipeline of the tree, pre-order. *)
@@ -49,7 +52,8 @@ Inductive vcase :=
 | CFan (sig : nat) (caps : list bool) (ro_in : bool) (c0 : list Z) (errs : list (list N)) (ls : list wlabel)
        (o_cap : bool) (o_evs : list wev) (o_final : list (option (list Z))) (o_ro0 : bool) (o_err : list N)
 | CPipe (sig : nat) (procs exps : list bool) (o_cap : bool)
-| CTree (sig : nat) (roots : list pipe) (o_recv_cap : bool) (o_caps : list bool).
+| CTree (sig : nat) (roots : list pipe) (o_recv_cap : bool) (o_caps : list bool)
+| CRouter (sig : nat) (pipe_caps : list bool) (sel : list nat) (o_cap o_default_cap : bool) (o_calls : list nat).
 
 Record fan_out := mkOut { f_cap : bool; f_evs : list wev; f_final : list (option (list Z)); f_ro0 : bool; f_err : list N }.
 
@@ -70,6 +74,10 @@ with pipe_caps (p : pipe) : list bool :=
   | Pipe procs exps => pipe_cap_t p :: flat_map node_caps exps
   end.
 
+(* connector router: pipelines invoked, in order, by the consumer returned from Consumer(sel...) *)
+Definition router_calls (pcaps : list bool) (sel : list nat) : list nat :=
+  map (fun k => nth k sel 0) (call_order (router_fan pcaps sel)).
+
 Definition check_case (c : vcase) : bool :=
   match c with
   | CFan _ caps ro_in c0 errs ls o_cap o_evs o_final o_ro0 o_err =>
@@ -80,15 +88,20 @@ Definition check_case (c : vcase) : bool :=
       && Bool.eqb (f_ro0 o) o_ro0
       && list_eqb N.eqb (f_err o) o_err
   | CPipe _ procs exps o_cap => Bool.eqb (pipeline_cap procs exps) o_cap
+  | CRouter _ pcaps sel o_cap o_dcap o_calls =>
+      Bool.eqb (fan_cap (router_fan pcaps sel)) o_cap
+      && Bool.eqb (fan_cap (new_fan pcaps)) o_dcap
+      && list_eqb Nat.eqb (router_calls pcaps sel) o_calls
   | CTree _ roots o_rc o_caps =>
       Bool.eqb (fan_cap (new_fan (map pipe_cap_t roots))) o_rc && list_eqb Bool.eqb (flat_map pipe_caps roots) o_caps
   end.
 
 (* model outputs, for replay files *)
-Inductive mout := MFan (o : fan_out) | MCaps (l : list bool).
+Inductive mout := MFan (o : fan_out) | MCaps (l : list bool) | MCalls (c d : bool) (l : list nat).
 Definition model_out (c : vcase) : mout :=
   match c with
   | CFan _ caps ro_in c0 errs ls _ _ _ _ _ => MFan (model_fan caps ro_in c0 errs ls)
   | CPipe _ procs exps _ => MCaps [pipeline_cap procs exps]
+  | CRouter _ pcaps sel _ _ _ => MCalls (fan_cap (router_fan pcaps sel)) (fan_cap (new_fan pcaps)) (router_calls pcaps sel)
   | CTree _ roots _ _ => MCaps (fan_cap (new_fan (map pipe_cap_t roots)) :: flat_map pipe_caps roots)
   end.
